@@ -103,6 +103,19 @@ func runC15(c *Ctx) {
 					okEnc = PathOf(call.Call.Args[0]) == P(wr, 1)
 				}
 			}
+			// … or hex.Encode(dst, bs) into a slice made for it, sent whole
+			if encs := Calls(wr, "encoding/hex.Encode"); !okEnc && len(encs) == 1 && Dominates(encs[0], wm) {
+				ea := CallOf(encs[0]).Args
+				if mk, isMk := Peel(ea[0]).(*ssa.MakeSlice); isMk && PathOf(ea[1]) == P(wr, 1) {
+					if el := CallResult(mk.Len, 0, "encoding/hex.EncodedLen"); el != nil {
+						if ln, isLen := el.Call.Args[0].(*ssa.Call); isLen {
+							if b, isB := ln.Call.Value.(*ssa.Builtin); isB && b.Name() == "len" && PathOf(ln.Call.Args[0]) == P(wr, 1) {
+								okEnc = Peel(a[2]) == ssa.Value(mk)
+							}
+						}
+					}
+				}
+			}
 			c.Check("C15.E", "Write:hex-of-own-argument", p, wm.Pos(), okEnc, "payload = hex.EncodeToString(bs) of the call's own argument", "the payload is not hex.EncodeToString of Write's own argument: the reading side decodes hex")
 			c.Check("C15.E", "Write:not-in-loop", p, wm.Pos(), !InLoop(wm.Block()), "one message per Write", "WriteMessage is in a loop")
 		}
@@ -121,13 +134,32 @@ func runC15(c *Ctx) {
 	}
 	if rd := c.need(p, "C15.E", "utils/tcpbridge/connection.(*WebsocketNetConn).Read"); rd != nil {
 		rm := c.UniqueCall("C15.E", p, rd, false, "(*github.com/gorilla/websocket.Conn).ReadMessage")
-		dec := c.UniqueCall("C15.E", p, rd, false, "encoding/hex.DecodeString")
+		dec := c.UniqueCall("C15.E", p, rd, false, "encoding/hex.DecodeString", "encoding/hex.Decode")
 		if rm != nil && dec != nil {
 			okSrc := false
-			if cv, ok := CallOf(dec).Args[0].(*ssa.Convert); ok {
-				if e, ok := cv.X.(*ssa.Extract); ok && e.Tuple == rm.(ssa.Value) && e.Index == 1 {
-					okSrc = true
+			inPlace := CalleeName(CallOf(dec)) == "encoding/hex.Decode"
+			src := CallOf(dec).Args[0]
+			if inPlace {
+				src = CallOf(dec).Args[1]
+			}
+			if cv, ok := src.(*ssa.Convert); ok {
+				src = cv.X
+			}
+			if e, ok := src.(*ssa.Extract); ok && e.Tuple == rm.(ssa.Value) && e.Index == 1 {
+				okSrc = true
+			}
+			// the decoded bytes: result 0 of DecodeString, or dst[:n] of n, err := hex.Decode(dst, src)
+			isDecoded := func(v ssa.Value) bool {
+				if !inPlace {
+					e, ok := v.(*ssa.Extract)
+					return ok && e.Tuple == dec.(ssa.Value) && e.Index == 0
 				}
+				sl, ok := v.(*ssa.Slice)
+				if !ok || sl.Low != nil || sl.High == nil || !SameValue(sl.X, CallOf(dec).Args[0]) {
+					return false
+				}
+				e, ok := sl.High.(*ssa.Extract)
+				return ok && e.Tuple == dec.(ssa.Value) && e.Index == 0
 			}
 			c.Check("C15.E", "Read:decodes-payload-just-read", p, dec.Pos(), okSrc, "hex.DecodeString(string(<payload of this ReadMessage>))", "the decoded string is not the payload of the message just read")
 			env := func(typ int64, buffered int64) Env {
@@ -160,7 +192,7 @@ func runC15(c *Ctx) {
 			// the decoded bytes become the buffer
 			okStore := false
 			for _, st := range StoresToField([]*ssa.Function{rd}, "utils/tcpbridge/connection.WebsocketNetConn", "bufferedMsg") {
-				if e, ok := st.Val.(*ssa.Extract); ok && e.Tuple == dec.(ssa.Value) && e.Index == 0 {
+				if isDecoded(st.Val) {
 					okStore = true
 				}
 			}
